@@ -1,17 +1,22 @@
 #!/usr/bin/env bash
-# tools/sensitivity.sh [name-prefix] : re-runs every adopted seeded change (and the planted ones) against the quick tier
-# of the property it targets, on private copies (tools/seedrun_iso.sh). Prints one line per change; exit 1 if any
-# change that was caught before is now missed. Takes about a minute per change.
+# tools/sensitivity.sh [name-glob ...] : re-runs adopted seeded changes against the quick tier of the checks recorded
+# as catching them (first three of meta.json's caught_by_quick), on private copies (tools/seedrun_iso.sh, SR=...).
+# Prints one line per change; exit 1 if a change that was caught before is now missed by all of them.
+# Takes about a minute per change; run several instances with different globs and SR dirs in parallel.
 cd /verif
 missed=0
-: > /tmp/sensitivity.log
-for d in seeded/${1:-}*/; do
+LOG=${LOG:-/tmp/sensitivity.log}
+: > $LOG
+pats=("$@"); [ ${#pats[@]} -eq 0 ] && pats=("*")
+for pat in "${pats[@]}"; do
+for d in seeded/$pat/; do
 	[ -f "$d/meta.json" ] || continue
 	n=$(basename "$d")
-	prop=$(python3 -c "import json;print(json.load(open('$d/meta.json'))['breaks_property'])")
-	r=$(SR=${SR:-/tmp/sr3} tools/seedrun_iso.sh "$d/patch.diff" "$prop" 2>&1 | grep "^--- $prop")
-	v=$(echo "$r" | sed -n 's/.*violations=\([0-9]*\).*/\1/p')
-	if [ "${v:-0}" -ge 1 ]; then echo "caught  $n ($prop)"; else echo "MISSED  $n ($prop) :: $r"; missed=$((missed+1)); fi | tee -a /tmp/sensitivity.log
+	checks=$(python3 -c "import json;m=json.load(open('$d/meta.json'));print(' '.join(m['caught_by_quick'][:3]))")
+	r=$(SR=${SR:-/tmp/sr3} tools/seedrun_iso.sh "$d/patch.diff" $checks 2>&1 | grep "^--- C")
+	hit=$(echo "$r" | grep -E "violations=[1-9]" | sed 's/^--- \(C[0-9]*\).*/\1/' | tr '\n' ',')
+	if [ -n "$hit" ]; then echo "caught  $n by ${hit%,} (ran: $checks)"; else echo "MISSED  $n (ran: $checks) :: $(echo "$r" | head -2 | tr '\n' ' ')"; missed=$((missed+1)); fi | tee -a $LOG
 done
-echo "missed=$missed" | tee -a /tmp/sensitivity.log
+done
+echo "missed=$missed" | tee -a $LOG
 [ $missed -eq 0 ]
